@@ -344,6 +344,35 @@ def mixed_length_traces(c):
                     out.append(tr)
             if not {"Wrapf", "Wrapc", "Wrapp", "Wrapl"} <= seen:
                 raise MachineryError("mixed line length run of %s did not use every emitter: %s" % (name, sorted(seen)))
+        # a line length given on a nested namespace does not leak into the files of other scopes
+        od = os.path.join(base, "nested")
+        os.makedirs(od)
+        long_args = ", ".join("double argument_number_%d" % k for k in range(1, 7))
+        yml = ("library: nest\ncxx_header: nest.hpp\noptions: {F_line_length: 60, C_line_length: 60}\ndeclarations:\n"
+               "- decl: void outer_function_one(%s)\n"
+               "- decl: namespace first\n  declarations:\n  - decl: void first_function(%s)\n"
+               "- decl: namespace wide\n  options: {F_line_length: 120, C_line_length: 100}\n  declarations:\n"
+               "  - decl: void wide_function(%s)\n"
+               "- decl: void outer_function_two(const std::string & name_of_the_thing, %s)\n") % ((long_args,) * 4)
+        yp = os.path.join(od, "nest.yaml")
+        open(yp, "w").write(yml)
+        tf = od + ".ndjson"
+        rc, so, se = shroudrun.run(corpus.base_args(od) + [yp], probes=["linewrap"], trace=tf)
+        if rc != 0:
+            raise MachineryError("nested line length run failed rc=%s\n%s" % (rc, se[-1500:]))
+        nfile = 0
+        for e in shroudrun.read_events(tf):
+            if e.get("e") != "write_lines" or e.get("err") or e["cls"] not in ("Wrapf", "Wrapc"):
+                continue
+            # (the wrappers read the line lengths once, from the library's options: a value given on a namespace
+            # changes nothing -- in particular not the files of the scopes around it)
+            want = 60
+            nfile += 1
+            for tr in split_call(e)[:60]:
+                tr["want"] = want
+                out.append(tr)
+        if nfile < 4:
+            raise MachineryError("nested line length run recorded %d files" % nfile)
     return out
 
 
